@@ -183,6 +183,14 @@ Definition dres_eqb (a b : dres) : bool :=
   | _, _ => false
   end.
 
+(* the integer nearest to n / d, ties to the even one *)
+Definition round_half_even (n d : Z) : Z :=
+  let quo := n / d in
+  let rem := n mod d in
+  if 2 * rem <? d then quo
+  else if d <? 2 * rem then quo + 1
+  else if Z.even quo then quo else quo + 1.
+
 (* m > 0; the value m * 10^e *)
 Definition to_double (m e : Z) : dres :=
   let num := if 0 <=? e then m * 10 ^ e else m in
@@ -193,11 +201,7 @@ Definition to_double (m e : Z) : dres :=
   let q := Z.max (b - 52) (-1074) in
   let n' := if 0 <=? q then num else num * 2 ^ (- q) in
   let d' := if 0 <=? q then den * 2 ^ q else den in
-  let quo := n' / d' in
-  let rem := n' mod d' in
-  let mant := if 2 * rem <? d' then quo
-              else if d' <? 2 * rem then quo + 1
-              else if Z.even quo then quo else quo + 1 in
+  let mant := round_half_even n' d' in
   let mant' := if mant =? 2 ^ 53 then 2 ^ 52 else mant in
   let q' := if mant =? 2 ^ 53 then q + 1 else q in
   if mant' =? 0 then DZero else if 971 <? q' then DInf else DFin mant' q'.
